@@ -27,6 +27,9 @@ type c28Case struct {
 	// Resub[ch] = bitmask of subscribed nodes that had subscribed and released the channel once before, and
 	// subscribe (again) only after the links are up
 	Resub []int `json:"resub,omitempty"`
+	// Same[i]: publish i repeats the payload of the previous publish of the same node on the same channel (a second,
+	// distinct message with identical content)
+	Same []bool `json:"same,omitempty"`
 }
 
 var c28Channels = []string{"x", "y"}
@@ -68,6 +71,7 @@ func genC28(t *rapid.T) c28Case {
 	np := rapid.IntRange(1, 6).Draw(t, "npubs")
 	for i := 0; i < np; i++ {
 		c.Pubs = append(c.Pubs, [2]int{rapid.IntRange(0, c.N-1).Draw(t, "pn"), rapid.IntRange(0, nch-1).Draw(t, "pc")})
+		c.Same = append(c.Same, rapid.IntRange(0, 3).Draw(t, "same") == 0)
 	}
 	return c
 }
@@ -220,15 +224,31 @@ func checkC28(c c28Case) (o vstat.Outcome) {
 		data       string
 	}
 	var pubs []pub
+	copies := map[string]int{}
 	for i, p := range c.Pubs {
 		d := fmt.Sprintf("pub-%d-node%d-%s", i, p[0], c28Channels[p[1]])
+		if i < len(c.Same) && c.Same[i] {
+			for j := len(pubs) - 1; j >= 0; j-- {
+				if pubs[j].origin == p[0] && pubs[j].ch == p[1] {
+					d = pubs[j].data
+					o.Classes = append(o.Classes, "same-payload-published-again")
+					break
+				}
+			}
+		}
+		copies[d]++
+		if copies[d] > 1 {
+			continue
+		}
 		pubs = append(pubs, pub{origin: p[0], ch: p[1], data: d})
 	}
 	// FloodSub.Publish is reached through a subscription handle or the concrete type
 	for _, p := range pubs {
-		if err := publishFrom(nodes[p.origin], c28Channels[p.ch], []byte(p.data)); err != nil {
-			o.V = vstat.Viol("publish-failed", "Publish on node %d failed: %v", p.origin, err)
-			return
+		for k := 0; k < copies[p.data]; k++ {
+			if err := publishFrom(nodes[p.origin], c28Channels[p.ch], []byte(p.data)); err != nil {
+				o.V = vstat.Viol("publish-failed", "Publish on node %d failed: %v", p.origin, err)
+				return
+			}
 		}
 	}
 	quiesce(func() int {
@@ -273,7 +293,7 @@ func checkC28(c c28Case) (o vstat.Outcome) {
 			d, reach := dist[i]
 			want := 0
 			if reach && subscribed(i, p.ch) {
-				want = 1
+				want = copies[p.data]
 				if d >= 3 {
 					deep = true
 				}
@@ -285,6 +305,9 @@ func checkC28(c c28Case) (o vstat.Outcome) {
 				kind := "subscriber-missed-message"
 				if cnt > want {
 					kind = "delivered-more-than-once"
+				}
+				if want > 1 {
+					kind += "/repeated-payload"
 				}
 				o.V = vstat.Viol(kind, "message %q (origin node %d, channel %s): node %d (subscribed=%v, reachable=%v) had its handler called %d times, want %d; edges=%v subs=%v",
 					p.data, p.origin, c28Channels[p.ch], i, subscribed(i, p.ch), reach, cnt, want, c.Edges, c.Subs)
